@@ -150,3 +150,26 @@ def r_C13d_C34f_C09d(root):
                 out.append(Finding(pr, cl, M, "parse_tree_to_objgraph", "for ... in " + ast.unparse(l.iter), "the report of unresolvable references iterates %s for every model instead of each model's own delayed references: with several files it names the last model's references once per model and omits the others" % ast.unparse(l.iter), witness="main file importing another file, both with references that never resolve"))
     ob("C09", "C09.d", M, "parse_tree_to_objgraph", "each model's own delayed list is reported", okd)
     return inst, out
+def r_C13e(root):
+    """C13.e  the test that decides whether the processor walk descends into an object ("is its class a meta-class of this
+       meta-model") looks the class up by the key under which EVERY namespace is searched — the qualified name _tx_fqn.
+       A lookup by simple name (__class__.__name__) goes through TextXMetaModel.__getitem__, which searches only the main
+       grammar and its direct imports: objects of a grammar imported by an imported grammar are then skipped with all
+       their children."""
+    out = []; inst = 0
+    cp = find(load(root, M), "parse_tree_to_objgraph.call_obj_processors"); fi = sem.info(cp)
+    rec = [c for c in calls(cp, own=True) if callee_name(c) == "call_obj_processors"]
+    if not rec: raise AnalysisError("call_obj_processors: recursive descent not found")
+    gates = set()
+    for c in rec:
+        for g, pol in fi.guards(c):
+            for x in ast.walk(g):
+                if isinstance(x, ast.Compare) and len(x.ops) == 1 and isinstance(x.ops[0], (ast.In, ast.NotIn)) and ast.unparse(fi.expand(x.comparators[0], at=x)) in ("metamodel", "parser.metamodel"): gates.add(x)
+    if not gates: raise AnalysisError("call_obj_processors: membership test that gates the descent not found")
+    for x in gates:
+        inst += 1
+        key = fi.expand(x.left, at=x); kt = ast.unparse(key)
+        by_fqn = "_tx_fqn" in kt
+        ob("C13", "C13.e", M, "parse_tree_to_objgraph.call_obj_processors", "descent gate %s" % " ".join(ast.unparse(x).split())[:90], by_fqn)
+        if not by_fqn: out.append(Finding("C13", "C13.e", M, "parse_tree_to_objgraph.call_obj_processors", " ".join(ast.unparse(x).split())[:100], "the walk descends into an object only if its class is found by %s: a simple class name is searched in the main grammar and its direct imports only, so objects of a transitively imported grammar and everything below them get no processor calls" % kt[:60], witness="a.tx imports b.tx imports c.tx; a rule of c contains objects of another rule of c; processors registered for both"))
+    return inst, out
